@@ -28,6 +28,15 @@
 (* through a degree >= 2 or broken coordinate field, surfaces with a kink    *)
 (* at the facet: GDim > TDim) they are two independent vectors.              *)
 (*                                                                         *)
+(* The integral has a measure over one or several domains (meshes): the    *)
+(* primary one and the intersect measures, each with its integral type.    *)
+(* A domain on which the integral is an interior-facet integral is         *)
+(* TWO-SIDED; on a domain where it is a cell or exterior-facet integral    *)
+(* there is one cell only (ONE-SIDED): every terminal of that domain has   *)
+(* one value, outside a restriction, and none below a restriction (there   *)
+(* is no side "+" or "-" to speak of).  The integrand of                   *)
+(* ds(mesh A) /\ dS(mesh B) is two-sided through the terminals of B.       *)
+(*                                                                         *)
 (*   M(t, e, c)    the meaning of the ORIGINAL integrand in environment e   *)
 (*                 below restriction context c in {"0", "+", "-"}           *)
 (*   P(t, c, d)    RestrictionPropagator AS CODED (one operator per         *)
@@ -53,7 +62,13 @@ CONSTANTS
               \*   h1    TRUE: the coordinate element is H1-conforming (continuous coordinate field)
               \*   gdim  geometric dimension (length of x, n, gradients, vector-valued functions)
               \*   tdim  topological dimension of the cells (gdim > tdim: immersed manifold)
-  TermsC,     \* TermsC[w]: the terminals of world w: sequence of [nm |-> STRING, kind |-> STRING, sh |-> 0 | 1]
+  DomsC,      \* DomsC[w]: the domains of the integrals of world w: sequence of [mesh, it, inm]:
+              \*   mesh  mesh kind of the domain (a record like those of MeshesC); DomsC[w][1].mesh = MeshesC[w]
+              \*   it    integral type on that domain: "cell", "exterior_facet", "interior_facet"
+              \*   inm   TRUE: the domain is in the Measure (domain 1: the primary domain; the others: its
+              \*         intersect_measures); FALSE: the domain only occurs in the integrand
+  TermsC,     \* TermsC[w]: the terminals of world w: sequence of [nm |-> STRING, kind |-> STRING, sh |-> 0 | 1,
+              \*   dom |-> index into DomsC[w]: the domain the terminal lives on]
   TValC,      \* TValC[w][e][k] = [v |-> [p, m], g |-> [p, m], r |-> [p, m]]: value, gradient and
               \* reference value of terminal k of world w on the two sides in environment e
   NEnv,       \* number of environments
@@ -86,6 +101,27 @@ NT == Len(Terms)
 Kind(k) == Terms[k].kind
 DefaultSide == "+"          \* default_restriction_map["interior_facet"]
 
+(* The measure.  default_restriction_map: interior-facet types -> "+", every other type -> None    *)
+(* ("0" here).  FormData.__init__ builds the map domain -> default restriction from the integral    *)
+(* types of the domains of the Measure; a domain that only occurs in the integrand gets the primary *)
+(* integral type ("in case not all participating domains have been included in the Measure").      *)
+IntegralTypes == {"cell", "exterior_facet", "interior_facet"}
+InteriorFacet(it) == it = "interior_facet"
+DefaultOf(it) == IF InteriorFacet(it) THEN DefaultSide ELSE "0"
+EffTypeOn(ds, k) == IF ds[k].inm THEN ds[k].it ELSE ds[1].it
+DefRestrOn(ds, k) == DefaultOf(EffTypeOn(ds, k))
+TwoSidedOn(ds, k) == DefRestrOn(ds, k) # "0"
+\* the guard of FormData.__init__ as coded: restrictions are propagated when some domain of the Measure
+\* has an interior-facet integral type
+PropagatesOn(ds) == \E k \in 1..Len(ds) : ds[k].inm /\ InteriorFacet(ds[k].it)
+\* ... which must cover every integral with a two-sided domain (the integrals the property speaks of)
+InScopeOn(ds) == \E k \in 1..Len(ds) : TwoSidedOn(ds, k)
+Doms == tab.doms
+Dom(k) == Terms[k].dom
+MeshOf(k) == Doms[Dom(k)].mesh           \* the mesh kind of the domain of terminal k
+DefRestr(k) == DefRestrOn(Doms, Dom(k))   \* default_restrictions[domain of terminal k]
+OneSided(k) == DefRestr(k) = "0"
+
 (* Terminal kinds and what the property assumes about their two values:               *)
 (*   cg      coefficient of an H1 (continuous) element        v.p = v.m, r.p = r.m     *)
 (*   dg      coefficient of a non-H1 element                  independent              *)
@@ -101,6 +137,7 @@ DefaultSide == "+"          \* default_restriction_map["interior_facet"]
 (*   lit     literal number                                    v.p = v.m                *)
 (* Gradients (g) are independent for every kind: the gradient of a continuous          *)
 (* function jumps across the facet.                                                     *)
+(* On a one-sided domain every kind has one value (field p of the tables).                 *)
 SingleKinds == {"cg", "x", "facetq", "const", "lit"}
 ConstKinds == {"const", "lit"}
 FormArg(k) == Kind(k) \in {"cg", "dg", "arg"}
@@ -115,15 +152,32 @@ MeshOK(ms) == /\ ms.deg \in 1..3 /\ ms.h1 \in BOOLEAN /\ ms.tdim \in 1..3 /\ ms.
               /\ ms.gdim >= 2
 OppositeOn(ms) == ms.deg <= 1 /\ ms.h1 /\ ms.gdim = ms.tdim
 NormalsOpposite == OppositeOn(tab.mesh)
+OppositeAt(k) == OppositeOn(MeshOf(k))     \* for the facet normal k (of whatever domain)
 VLenOn(ms, sh) == IF sh = 0 THEN 1 ELSE ms.gdim
 
 NegV(x) == [i \in 1..Len(x) |-> CNeg(x[i])]
 Worlds == 1..Len(MeshesC)
+DomsOK ==
+  /\ Len(DomsC) = Len(MeshesC)
+  /\ \A w \in Worlds : LET ds == DomsC[w] IN
+       /\ Len(ds) >= 1 /\ ds[1].mesh = MeshesC[w] /\ ds[1].inm
+       /\ \A k \in 1..Len(ds) : /\ MeshOK(ds[k].mesh) /\ ds[k].mesh.gdim = MeshesC[w].gdim   \* one physical space
+                                 /\ ds[k].it \in IntegralTypes /\ ds[k].inm \in BOOLEAN
+       /\ InScopeOn(ds)          \* interior-facet integrands only
+       /\ \A k \in 1..Len(TermsC[w]) : TermsC[w][k].dom \in 1..Len(ds)
+       \* (FormData._check_facet_geometry: no facet quantity on a domain with a cell integral)
+       /\ \A k \in 1..Len(TermsC[w]) : TermsC[w][k].kind \in {"n", "facetq", "sfacetq"} => EffTypeOn(ds, TermsC[w][k].dom) # "cell"
+ASSUME DomsOK
+\* FormData's guard propagates exactly the integrals that have a two-sided domain, for every Measure
+\* over up to three domains (the mesh kinds do not matter here)
+MeasureShapes == UNION {[1..n -> [it : IntegralTypes, inm : BOOLEAN]] : n \in 1..3}
+GuardCovers == \A ds \in MeasureShapes : ds[1].inm => (InScopeOn(ds) <=> PropagatesOn(ds))
+ASSUME GuardCovers
 Admissible ==
   /\ Len(TermsC) = Len(MeshesC) /\ Len(TValC) = Len(MeshesC)
   /\ \A w \in Worlds : MeshOK(MeshesC[w])
   /\ \A w \in Worlds : \A e \in Envs : \A k \in 1..Len(TermsC[w]) :
-       LET ms == MeshesC[w]  tv == TValC[w][e][k]  kd == TermsC[w][k].kind  L == VLenOn(ms, TermsC[w][k].sh) IN
+       LET ms == DomsC[w][TermsC[w][k].dom].mesh  tv == TValC[w][e][k]  kd == TermsC[w][k].kind  L == VLenOn(ms, TermsC[w][k].sh) IN
        /\ Len(tv.v.p) = L /\ Len(tv.v.m) = L
        /\ Len(tv.r.p) = L /\ Len(tv.r.m) = L
        /\ Len(tv.g.p) = ms.gdim /\ Len(tv.g.m) = ms.gdim
@@ -135,7 +189,7 @@ ASSUME Admissible
 \* independent, some environment gives them values that are not opposite (otherwise a rewrite
 \* n('-') -> -n('+') would go unnoticed)
 Discriminating ==
-  \A w \in Worlds : \A k \in 1..Len(TermsC[w]) : (TermsC[w][k].kind = "n" /\ ~OppositeOn(MeshesC[w])) =>
+  \A w \in Worlds : \A k \in 1..Len(TermsC[w]) : (TermsC[w][k].kind = "n" /\ ~OppositeOn(DomsC[w][TermsC[w][k].dom].mesh)) =>
      \E e \in Envs : \A i \in 1..MeshesC[w].gdim : TValC[w][e][k].v.m[i] # CNeg(TValC[w][e][k].v.p[i])
 ASSUME Discriminating
 
@@ -169,8 +223,9 @@ Sh(t) ==
     [] op = "cond" -> Sh(t[4])
     [] op = "jumpn" -> IF Sh(t[2]) = 0 THEN 1 ELSE 0
 
-HasNormal == \E k \in 1..NT : Kind(k) = "n"
-NIdx == CHOOSE k \in 1..NT : Kind(k) = "n"
+\* jump(v, n) is built with the facet normal named "n" (the one of the primary domain)
+HasNormal == \E k \in 1..NT : Kind(k) = "n" /\ Terms[k].nm = "n"
+NIdx == CHOOSE k \in 1..NT : Kind(k) = "n" /\ Terms[k].nm = "n"
 Rz(t, s) == <<"R", t, s>>
 \* jump(v) = v('+') - v('-');  avg(v) = 0.5*(v('+') + v('-'));
 \* jump(v, n) = v('+')*n('+') + v('-')*n('-')  (scalar v)  |  dot(v('+'), n('+')) + dot(v('-'), n('-'))
@@ -186,18 +241,23 @@ Derived == {"jump", "avg", "jumpn"}
 -----------------------------------------------------------------------------
 (* (a) The meaning of the original integrand.  Below a restriction every terminal takes the  *)
 (* value of that side; outside, only a terminal whose two values agree has a value; a       *)
-(* restriction inside a restriction has no meaning.  "No meaning" is strict.                *)
+(* restriction inside a restriction has no meaning.  "No meaning" is strict.  A terminal of a *)
+(* one-sided domain has its one value outside a restriction and none below one (a constant   *)
+(* is a number and has its value everywhere).                                                 *)
 RECURSIVE M(_, _, _)
 M(t, e, c) ==
   LET op == t[1] IN
   CASE op = "T" ->
          LET pm == TVal[e][t[2]].v IN
-         IF c = "0" THEN (IF Kind(t[2]) \in SingleKinds THEN pm.p ELSE NoM) ELSE Side(pm, c)
+         IF OneSided(t[2]) THEN (IF c = "0" \/ Kind(t[2]) \in ConstKinds THEN pm.p ELSE NoM)
+         ELSE IF c = "0" THEN (IF Kind(t[2]) \in SingleKinds THEN pm.p ELSE NoM) ELSE Side(pm, c)
     [] op = "half" -> <<CQ2(1, 2)>>
-    [] op = "grad" -> IF c = "0" THEN NoM ELSE Side(TVal[e][t[2]].g, c)
+    [] op = "grad" -> IF OneSided(t[2]) THEN (IF c = "0" THEN TVal[e][t[2]].g.p ELSE NoM)
+                      ELSE IF c = "0" THEN NoM ELSE Side(TVal[e][t[2]].g, c)
     [] op = "rv" ->
          LET pm == TVal[e][t[2]].r IN
-         IF c = "0" THEN (IF Kind(t[2]) = "cg" THEN pm.p ELSE NoM) ELSE Side(pm, c)
+         IF OneSided(t[2]) THEN (IF c = "0" THEN pm.p ELSE NoM)
+         ELSE IF c = "0" THEN (IF Kind(t[2]) = "cg" THEN pm.p ELSE NoM) ELSE Side(pm, c)
     [] op = "R" -> IF c # "0" THEN NoM ELSE M(t[2], e, t[3])
     [] op = "var" -> M(t[2], e, c)
     [] op = "neg" -> LET x == M(t[2], e, c) IN IF Len(x) = 0 THEN NoM ELSE NegV(x)
@@ -222,10 +282,11 @@ M(t, e, c) ==
 RECURSIVE Valid(_, _)
 Valid(t, c) ==
   LET op == t[1] IN
-  CASE op = "T" -> c # "0" \/ Kind(t[2]) \in SingleKinds
+  CASE op = "T" -> IF OneSided(t[2]) THEN c = "0" \/ Kind(t[2]) \in ConstKinds
+                   ELSE c # "0" \/ Kind(t[2]) \in SingleKinds
     [] op = "half" -> TRUE
-    [] op = "grad" -> c # "0"
-    [] op = "rv" -> c # "0" \/ Kind(t[2]) = "cg"
+    [] op = "grad" -> IF OneSided(t[2]) THEN c = "0" ELSE c # "0"
+    [] op = "rv" -> IF OneSided(t[2]) THEN c = "0" ELSE c # "0" \/ Kind(t[2]) = "cg"
     [] op = "R" -> c = "0" /\ Valid(t[2], t[3])
     [] op \in {"var", "neg", "idx"} -> Valid(t[2], c)
     [] op \in {"add", "mul", "div", "dot"} -> Valid(t[2], c) /\ Valid(t[3], c)
@@ -247,15 +308,30 @@ Nested(t, inR) ==
 RECURSIVE MissingKinds(_, _)
 MissingKinds(t, c) ==
   LET op == t[1] IN
-  CASE op = "T" -> IF c = "0" /\ Kind(t[2]) \notin SingleKinds THEN {Kind(t[2])} ELSE {}
+  CASE op = "T" -> IF c = "0" /\ ~OneSided(t[2]) /\ Kind(t[2]) \notin SingleKinds THEN {Kind(t[2])} ELSE {}
     [] op = "half" -> {}
-    [] op = "grad" -> IF c = "0" THEN {"grad"} ELSE {}
-    [] op = "rv" -> IF c = "0" /\ Kind(t[2]) # "cg" THEN {"rv-" \o Kind(t[2])} ELSE {}
+    [] op = "grad" -> IF c = "0" /\ ~OneSided(t[2]) THEN {"grad"} ELSE {}
+    [] op = "rv" -> IF c = "0" /\ ~OneSided(t[2]) /\ Kind(t[2]) # "cg" THEN {"rv-" \o Kind(t[2])} ELSE {}
     [] op = "R" -> MissingKinds(t[2], t[3])
     [] op \in {"var", "neg", "idx"} -> MissingKinds(t[2], c)
     [] op \in {"add", "mul", "div", "dot"} -> MissingKinds(t[2], c) \cup MissingKinds(t[3], c)
     [] op = "cond" -> MissingKinds(t[2], c) \cup MissingKinds(t[3], c) \cup MissingKinds(t[4], c) \cup MissingKinds(t[5], c)
     [] op \in Derived -> MissingKinds(Expand(t), c)
+
+\* the kinds of the terminals of a one-sided domain that stand below a restriction (the third way
+\* an integrand can fail to have a meaning)
+RECURSIVE OneSidedRestricted(_, _)
+OneSidedRestricted(t, c) ==
+  LET op == t[1] IN
+  CASE op = "T" -> IF c # "0" /\ OneSided(t[2]) /\ Kind(t[2]) \notin ConstKinds THEN {Kind(t[2])} ELSE {}
+    [] op = "half" -> {}
+    [] op = "grad" -> IF c # "0" /\ OneSided(t[2]) THEN {"grad"} ELSE {}
+    [] op = "rv" -> IF c # "0" /\ OneSided(t[2]) THEN {"rv-" \o Kind(t[2])} ELSE {}
+    [] op = "R" -> OneSidedRestricted(t[2], t[3])
+    [] op \in {"var", "neg", "idx"} -> OneSidedRestricted(t[2], c)
+    [] op \in {"add", "mul", "div", "dot"} -> OneSidedRestricted(t[2], c) \cup OneSidedRestricted(t[3], c)
+    [] op = "cond" -> OneSidedRestricted(t[2], c) \cup OneSidedRestricted(t[3], c) \cup OneSidedRestricted(t[4], c) \cup OneSidedRestricted(t[5], c)
+    [] op \in Derived -> OneSidedRestricted(Expand(t), c)
 
 -----------------------------------------------------------------------------
 (* (b) RestrictionPropagator as coded.  c = current_restriction ("0" = None); d = the mode:     *)
@@ -270,25 +346,35 @@ IsRej(t) == t[1] = "reject"
 
 \* _ignore_restriction
 IgnoreRestriction(o, c, d) == o
+\* r = default_restrictions[domain of o] (o = terminal k, grad or reference_value of terminal k): "0" = None
+RestrOf(o) == DefRestr(o[2])
 \* _require_restriction
 RequireRestriction(o, c, d) ==
   IF ~Validates(d) THEN (IF c = "0" THEN o ELSE Rz(o, c))
-  ELSE IF c = "0" THEN Rej("must-be-restricted") ELSE Rz(o, c)
+  ELSE LET r == RestrOf(o) IN
+       IF c = "0" THEN (IF r = "0" THEN o ELSE Rej("must-be-restricted"))
+       ELSE IF r = "0" THEN Rej("inconsistent") ELSE Rz(o, c)
 \* _default_restricted
 DefaultRestricted(o, c, d) ==
   IF ~Validates(d) THEN (IF c = "0" THEN o ELSE Rz(o, c))
-  ELSE IF c = "0" THEN (IF Defaults(d) THEN Rz(o, DefaultSide) ELSE o) ELSE Rz(o, c)
+  ELSE LET r == RestrOf(o) IN
+       IF c = "0" THEN (IF r = "0" \/ ~Defaults(d) THEN o ELSE Rz(o, r))
+       ELSE IF r = "0" THEN Rej("inconsistent") ELSE Rz(o, c)
 \* _opposite
 Opposite(o, c, d) ==
   IF ~Validates(d) THEN (IF c = "0" THEN o ELSE Rz(o, c))
-  ELSE IF c = "0" THEN Rej("must-be-restricted")
-  ELSE IF c = DefaultSide THEN Rz(o, DefaultSide) ELSE <<"neg", Rz(o, DefaultSide)>>
+  ELSE LET r == RestrOf(o) IN
+       IF c = "0" THEN (IF r = "0" THEN o ELSE Rej("must-be-restricted"))
+       ELSE IF r = "0" THEN Rej("inconsistent")
+       ELSE IF c = r THEN Rz(o, r) ELSE <<"neg", Rz(o, r)>>
 \* coefficient
 Coefficient(o, c, d) == IF Kind(o[2]) = "cg" THEN DefaultRestricted(o, c, d) ELSE RequireRestriction(o, c, d)
 \* facet_normal: the guard as coded (degree, H1, gd == td), not NormalsOpposite: that the rewrite is
 \* applied only where the normals are opposite is part of what Sound checks
+\* (D = the domain of the normal: its own mesh kind)
 FacetNormal(o, c, d) ==
-  IF CoordDeg <= 1 /\ CoordH1 /\ GDim = TDim THEN Opposite(o, c, d) ELSE RequireRestriction(o, c, d)
+  LET D == MeshOf(o[2]) IN
+  IF D.deg <= 1 /\ D.h1 /\ D.gdim = D.tdim THEN Opposite(o, c, d) ELSE RequireRestriction(o, c, d)
 \* the terminal rules
 Terminal(o, c, d) ==
   LET k == Kind(o[2]) IN
@@ -342,23 +428,28 @@ P(t, c, d) ==
     [] op = "cond" -> OperatorCond(t, c, d)
     [] op \in Derived -> P(Expand(t), c, d)
 
+\* FormData.__init__ (do_apply_restrictions): an integral none of whose Measure domains has an
+\* interior-facet type is left alone; the others go through apply_restrictions with the map DefRestr
+FormDataP(t, d) == IF PropagatesOn(Doms) THEN P(t, "0", d) ELSE t
+
 -----------------------------------------------------------------------------
 (* The shape of a correct result: restrictions wrap terminals (or grad / reference_value of a *)
 (* terminal) directly, every side-dependent terminal is wrapped, constants are not; with      *)
 (* defaults every non-constant terminal is wrapped and, where the two normals are opposite,  *)
-(* only n('+') occurs.                                                                        *)
+(* only n('+') occurs.  The terminals of a one-sided domain are never wrapped.                *)
 RECURSIVE Normal(_, _)
 Normal(t, d) ==
   LET op == t[1] IN
-  CASE op = "T" -> Kind(t[2]) \in ConstKinds \/ (~Defaults(d) /\ Kind(t[2]) \in SingleKinds)
+  CASE op = "T" -> Kind(t[2]) \in ConstKinds \/ OneSided(t[2]) \/ (~Defaults(d) /\ Kind(t[2]) \in SingleKinds)
     [] op = "half" -> TRUE
-    [] op = "grad" -> FALSE
-    [] op = "rv" -> ~Defaults(d) /\ Kind(t[2]) = "cg"
+    [] op = "grad" -> OneSided(t[2])
+    [] op = "rv" -> OneSided(t[2]) \/ (~Defaults(d) /\ Kind(t[2]) = "cg")
     [] op = "R" ->
          LET u == t[2] IN
          /\ u[1] \in {"T", "grad", "rv"}
+         /\ ~OneSided(u[2])
          /\ u[1] = "T" => Kind(u[2]) \notin ConstKinds
-         /\ (Validates(d) /\ NormalsOpposite /\ u[1] = "T" /\ Kind(u[2]) = "n") => t[3] = DefaultSide
+         /\ (Validates(d) /\ u[1] = "T" /\ Kind(u[2]) = "n" /\ OppositeAt(u[2])) => t[3] = DefaultSide
     [] op = "var" -> FALSE
     [] op \in {"neg", "idx"} -> Normal(t[2], d)
     [] op \in {"add", "mul", "div", "dot"} -> Normal(t[2], d) /\ Normal(t[3], d)
@@ -420,7 +511,7 @@ ShC(w, t) == CASE t[1] = "T" -> TermsC[w][t[2]].sh [] t[1] = "grad" -> 1 [] t[1]
                [] t[1] = "R" -> ShC(w, t[2])
 Init == /\ store = << >> /\ phase = "build" /\ res = NoRes
         /\ \E c \in 1..Len(Configs) : LET cf == Configs[c] IN
-             tab = [world |-> cf.world, mesh |-> MeshesC[cf.world], terms |-> TermsC[cf.world],
+             tab = [world |-> cf.world, mesh |-> MeshesC[cf.world], doms |-> DomsC[cf.world], terms |-> TermsC[cf.world],
                     tval |-> TValC[cf.world], cfg |-> cf.name, atoms |-> cf.atoms,
                     ash |-> [i \in 1..Len(cf.atoms) |-> ShC(cf.world, cf.atoms[i])], levels |-> cf.levels,
                     maxnodes |-> cf.maxnodes, maxdead |-> cf.maxdead]
@@ -453,7 +544,7 @@ Apply(d) ==
   /\ Len(store) >= 1
   \* vals: the meaning of the original integrand in every environment (computed once, read by the
   \* invariants and the dump)
-  /\ res' = [d |-> d, out |-> P(Top, "0", d), vals |-> [e \in Envs |-> M(Top, e, "0")]]
+  /\ res' = [d |-> d, out |-> FormDataP(Top, d), vals |-> [e \in Envs |-> M(Top, e, "0")]]
   /\ phase' = "applied"
   /\ UNCHANGED <<store, tab>>
 
@@ -520,7 +611,7 @@ DeviationKeepsMissing == Deviation => \A e \in Envs : Len(M(res.out, e, "0")) = 
 
 TypeOK ==
   /\ phase \in {"build", "applied"} /\ res.d \in {"default", "none", "check"}
-  /\ tab.world \in Worlds /\ tab.mesh = MeshesC[tab.world]
+  /\ tab.world \in Worlds /\ tab.mesh = MeshesC[tab.world] /\ tab.doms = DomsC[tab.world]
   /\ tab.terms = TermsC[tab.world] /\ tab.tval = TValC[tab.world]
   /\ \A i \in 1..Len(store) : store[i].sh = Sh(store[i].t)
   /\ Len(store) <= MaxNodes
@@ -547,7 +638,12 @@ DumpRec ==
    inleaves |-> SetToSeq(Leaves(Top, "0")),
    valid |-> Valid(Top, "0"), nested |-> Nested(Top, FALSE),
    missing |-> SetToSeq(MissingKinds(Top, "0")),
+   onesided |-> SetToSeq(OneSidedRestricted(Top, "0")),
    dev |-> Deviation, opp |-> NormalsOpposite,
+   \* the terminals of a one-sided domain; the facet normals whose two values are opposite
+   os |-> SetToSeq({Terms[k].nm : k \in {j \in 1..NT : OneSided(j)}}),
+   oppn |-> SetToSeq({Terms[k].nm : k \in {j \in 1..NT : Kind(j) = "n" /\ OppositeAt(j)}}),
+   prop |-> PropagatesOn(Doms),
    vals |-> res.vals]
 DumpInv == (Applied /\ Live) => PrintT(ToJson(DumpRec))
 =============================================================================
